@@ -144,18 +144,10 @@ func crossCheck() error {
 	if ScalarVal(ScalarLimbs(s)).Cmp(want) != 0 {
 		return fmt.Errorf("alpha cross-check: Scalar reader disagrees with SetCanonicalBytes(2^200+7)")
 	}
-	// Point: generator must be on the curve with y = 4/5.
-	g := edwards25519.NewGeneratorPoint()
-	pv := PointVal(PointLimbs(g))
-	if !pv.Valid() {
-		return fmt.Errorf("alpha cross-check: generator is not a valid point through the reader")
-	}
-	y := new(big.Int).ModInverse(big.NewInt(5), P)
-	y.Mul(y, big.NewInt(4)).Mod(y, P)
-	_, ay := pv.Affine()
-	if ay.Cmp(y) != 0 {
-		return fmt.Errorf("alpha cross-check: generator y != 4/5")
-	}
+	// Point: no value cross-check on purpose. Producing any Point needs the
+	// library's field arithmetic; if that is broken the failure must surface
+	// as a violation in the checks, not as "cannot observe". The reflect guard
+	// above pins the layout (fields x, y, z, t of type field.Element).
 	return nil
 }
 
